@@ -12,7 +12,7 @@ from ..rdfmodel import RDF_TYPE, to_nt
 from . import c01
 
 PID = "C14"
-RULE = ("Hypothesis: general graphs (IRI nodes; blank-node subjects in a labelled minority) x switches x threshold x target mode.  "
+RULE = ("Hypothesis: general graphs (IRI nodes; blank-node subjects in a labelled minority) x switches x or-flags x threshold x target mode.  "
         "Three runs: G with inverse_paths, G without, rev(G) without (rev = instantiation triples + every non-literal triple "
         "reversed under a fresh predicate).  Oracle: (1) instance counts and every outgoing constraint (value, cardinality, figure, "
         "comment facts) identical in the first two; (2) '^p' constraints of run 1 == p' constraints of run 3; under a frequency tie "
@@ -30,6 +30,10 @@ def cases(draw):
     g = draw(gg.general(bnodes=bn, inst_props=(RDF_TYPE, RDF_TYPE, RDF_TYPE, "http://ex.org/isA")))
     cfg = draw(gg.switches(extra=("disable_exact_cardinality",)))
     cfg["instances_report_mode"] = "mixed"
+    if draw(st.integers(0, 3)) == 0:
+        cfg["disable_or_statements"] = False       # disjunctions must keep their direction too
+        if draw(st.booleans()):
+            cfg["allow_redundant_or"] = True
     target = draw(common.target_spec(g))
     thr = draw(st.sampled_from([0, 0, 0, 0.5, 1 / 3, 2 / 3, 1]))
     return {"g": g, "cfg": cfg, "target": target, "thr": thr}
@@ -63,7 +67,9 @@ def check(case):
             return discard("crash:" + crash.bucket)
         outs.append(text)
     try:
-        a, b, c = [oracle.read_canon(t, inst_prop) for t in outs]
+        a, b, c = oracle.read_all(outs, inst_prop)
+    except oracle.OneSided as e:
+        return violation(str(e), (), True)
     except oracle.shexc.ShExCError:
         return discard("unparsable-output")
     if any("__dup_labels__" in d for d in (a, b, c)):
